@@ -364,4 +364,23 @@ func init() {
 		)
 		props["C07"] = p
 	}
+
+	// ---- C05 ----
+	{
+		p := &Prop{ID: "C05", Outside: []string{
+			"ids and names longer than one ASCII letter (both cases are covered); more than 4 steps / 3 jobs",
+			"local actions and reusable workflows as definers of outputs (C14); nested matrix values",
+			"dynamic definitions are represented by fromJSON(<non-literal>): a JSON literal is typed exactly by actionlint and stays strict",
+		}}
+		p.Quick = []HRun{
+			{Entry: "HarnessC05Steps", Args: []int64{3}, Bound: "3 steps, each with or without a symbolic-letter id; symbolic reference letter; reference in any step, in job outputs or environment.url", Require: []string{"reported", "accepted"}},
+			{Entry: "HarnessC05Needs", Bound: "3 jobs, all direct-needs sets of the referring job, b optionally needing a; symbolic job / output letters", Require: []string{"reported", "accepted"}},
+			{Entry: "HarnessC05Matrix", Bound: "row / include / exclude keys and reference as symbolic letters; literal and three dynamic forms", Require: []string{"reported", "accepted", "dynamic"}},
+			{Entry: "HarnessC05Inputs", Bound: "inputs / secrets / jobs.<id>.outputs references against workflow_call and workflow_dispatch declarations (3 event combinations), symbolic letters", Require: []string{"reported", "accepted"}},
+		}
+		p.Thorough = append(append([]HRun{}, p.Quick...),
+			HRun{Entry: "HarnessC05Steps", Args: []int64{4}, Bound: "4 steps", Require: []string{"reported", "accepted"}},
+		)
+		props["C05"] = p
+	}
 }
